@@ -303,26 +303,3 @@ func ndEntries(c *Case) int {
 	}
 	return n
 }
-
-// ddmetClock: one clock reading per SERIES (time.Now() is read when its points array begins): the timestamp of the series'
-// first row when it lies within the request, the start of the request otherwise
-func ddmetClock(c *Case) string {
-	var ts []int64
-	for _, k := range c.Obs.Chunks {
-		ts = append(ts, k.Ts...)
-	}
-	var nows []int64
-	row := 0
-	for _, s := range c.Body.DDMet {
-		now := c.Obs.T0
-		if row < len(ts) && len(s.Points) > 0 && ts[row] >= c.Obs.T0 && ts[row] <= c.Obs.T1 {
-			now = ts[row]
-		}
-		nows = append(nows, now)
-		row += len(s.Points)
-	}
-	for i := 0; i < 4; i++ {
-		nows = append(nows, c.Obs.T0)
-	}
-	return fmt.Sprintf("(CK %s %s %s)", cz(c.Obs.T0), cz(c.Obs.T1), czs(nows))
-}
